@@ -16,9 +16,9 @@ PROPS = {
     },
     'C02': {
         'title': 'Typestate API mirrors the transition relation at compile time',
-        'level_text': "Proof over the emitted impl blocks (C02.method_exists_iff, method_types, new_only_initial, accessor_only_own_state): the method of e is found on M<s> iff delta_M(s,e) is defined, it is the method generated for that edge with Ok type M<target> and Err type (Self, GuardError) in the impl of s; new is found only on the initial state's type; the infallible accessors live only in the impl block of their own state. PARTIAL: that rustc's method resolution is this lookup is the trusted Static reading, validated by T4 probes over the full (leaf x event) matrix, every new, every accessor, with Ok/Err type ascriptions (E0599/E0308 keyed by line).",
+        'level_text': "Proof over the emitted impl blocks (C02.method_exists_iff, method_types, new_only_initial, accessor_only_own_state): the method of e is found on M<s> iff delta_M(s,e) is defined, it is the method generated for that edge with Ok type M<target> and Err type (Self, GuardError) in the impl of s; new is found only on the initial state's type; the infallible accessors live only in the impl block of their own state. PARTIAL: that rustc's method resolution is this lookup is the trusted Static reading, validated by T4 probes over the full (leaf x event) matrix, every new, every accessor, with Ok/Err type ascriptions (E0599/E0308 keyed by line). RefineTyped.typed_step_refines / typed_refines_spec: the typestate API refines the same abstract machine as the wrapper - the method of e is found on M<s> exactly when the abstract machine has an edge, returns Ok(M<target>) exactly when it fires (no veto, guards true, unless false) and otherwise Err((the same machine, the abstract machine's error)), along every history in which the caller threads the machine handed back.",
         'level_note': 'Ties: T1 (graph), T2 regions FE MK ST IH CT SIG XA, T4 method/types/new/accessor probes, T3 (a typed call the declared relation has and rustc does not find, on generated machines and on escalated suspects).',
-        'modules': ['SMV.Props.C02'],
+        'modules': ['SMV.Props.C02', 'SMV.Props.RefineTyped'],
         'regions': ['FE', 'MK', 'ST', 'IH', 'CT', 'SIG', 'XA'],
         't3': ['walk'],
         't4': ['method'],
@@ -83,7 +83,7 @@ PROPS = {
         'title': 'Typestate and dynamic modes are observationally equivalent',
         'level_text': "Proof (C09.handle_is_typed, typed_method_iff, error_correspondence): for every state, declared event, payload, history and hook environment, handle runs exactly the typed method that exists for that event on the current state (same hook trace, same resulting machine, guard-failed/action-failed errors mapped with the same names, panics propagating) and an event has no typed method on the current state exactly when the wrapper refuses it as an invalid transition. RefineReply.step_reply / replies_refine: along every history under scripted hooks, each reply of handle is exactly the abstract machine's reply - Ok, InvalidTransition{from: current leaf, event} when no edge, the first vetoing around callback's error, else GuardFailed naming the first guard answering false / unless-condition answering true and the declared event.",
         'level_note': 'Same side conditions as C01. Ties: T2 region HD, T3 (same operations through handle and through into_<s>/typed call/into_dynamic).',
-        'modules': ['SMV.Props.C09', 'SMV.Props.RefineReply'],
+        'modules': ['SMV.Props.C09', 'SMV.Props.RefineReply', 'SMV.Props.RefineTyped'],
         'regions': ['HD', 'EV', 'SIG'],
         't3': ['walk', 'assign'],
         't5': True,
